@@ -30,6 +30,8 @@ EXHAUSTIVE = {"quick": True, "thorough": True}
 
 USERS_A = {None: None, "alice": "secret", "bob": None, "carol": "pw2"}
 USERS_B = {"alice": "secret", "bob": None, "carol": "pw2"}
+USERS_C = {None: "anonpw", "alice": "secret", "bob": None, "carol": "pw2"}     # the catch-all account has a password of its own
+TABLES = {"A": USERS_A, "B": USERS_B, "C": USERS_C}
 SIZES = {None: 11, "alice": 22, "bob": 33, "carol": 44}
 GUARDED = {"PWD", "CWD", "CDUP", "MKD", "RMD", "DELE", "RNFR", "RNTO", "MLST", "LIST", "MLSD", "RETR", "STOR", "APPE", "PASV", "EPSV"}
 
@@ -127,7 +129,7 @@ async def burst_session(net, hyg, plan, w, users, viol, mon):
 
 
 async def session(net, hyg, plan):
-    users = USERS_A if plan["users"] == "A" else USERS_B
+    users = TABLES[plan["users"]]
     ucfg = plan.get("ucfg")
     extra = {}
     if ucfg == "home":
@@ -167,7 +169,7 @@ async def session(net, hyg, plan):
         cmds = plan.get("commands")
         n = len(cmds) if cmds else plan["length"]
         for i in range(n):
-            verb, arg = cmds[i] if cmds else rng.choice(FULL)
+            verb, arg = cmds[i] if cmds else rng.choice(FULL + [tuple(x) for x in plan.get("extra_alphabet", [])])
             logged_before = m.logged
             ncalls = len(w.ctl.calls)
             nlisten = len(net.servers)
@@ -279,6 +281,16 @@ def gen_cases(tier, seed):
     nrand = 300 if tier == "quick" else 6000
     for i in range(nrand):
         plans.append({"users": "A" if i % 2 else "B", "seed": seed * 99991 + i, "length": 25})
+    # a catch-all (anonymous) account that has a password of its own: any name leads to it, none gets in without that password
+    alpha_c = [("USER", "anonymous"), ("USER", "nobody"), ("USER", "alice"), ("PASS", "anonpw"), ("PASS", "secret"), ("PASS", "wrong"),
+               ("PWD", ""), ("MKD", "/made"), ("MLST", "/whoami"), ("PASV", ""), ("RETR", "/whoami")]
+    for n in range(1, 4 if tier == "quick" else 5):
+        for idx, seq in enumerate(itertools.product(alpha_c, repeat=n)):
+            if n == 4 and (idx + seed) % 3:
+                continue
+            plans.append({"users": "C", "seed": seed, "commands": [list(x) for x in seq]})
+    for i in range(60 if tier == "quick" else 1500):
+        plans.append({"users": "C", "seed": seed * 31337 + i, "length": 25, "extra_alphabet": [["PASS", "anonpw"]] * 3})
     # non-default user configuration: home_path, accounts at their connection limit
     for ucfg in ("home", "limit"):
         for users in ("A", "B"):
